@@ -300,6 +300,55 @@ def diff_outputs(outdir, limit=20):
     return n, diffs
 
 
+def confirm_scenario_diffs(prop, cfg, binp, od, diffs, tier, log):
+    """Trace replays translate hook events recorded by concurrent goroutines; where the recorded order does not
+    determine the real one the translation skips, but a residual race in the translation must not become an alarm.
+    A difference that lies inside a scenario (preceding `scmark <token> <seed> …` line) is kept only if re-running that
+    scenario (replay mode: the harness repeats it several times) shows a difference or an oracle failure again, in one
+    of two attempts.  Differences outside any scenario are kept as they are.  Returns (kept, number dropped)."""
+    ops = open(os.path.join(od, "ops.txt")).read().split("\n")
+    by_sc, loose = {}, []
+    for d in diffs:
+        i = d[0] - 1
+        mark = None
+        while i >= 0:
+            if ops[i].startswith("scmark "):
+                mark = ops[i][len("scmark "):]
+                break
+            i -= 1
+        if mark is None:
+            loose.append(d)
+        else:
+            by_sc.setdefault(mark, []).append(d)
+    kept, dropped = list(loose), 0
+    for k, (mark, ds) in enumerate(by_sc.items()):
+        if k >= 6:       # many scenarios differ: no need to confirm each one
+            kept += ds
+            continue
+        confirmed = False
+        for attempt in range(2):
+            rd = os.path.join(od, "confirm_%d_%d" % (k, attempt))
+            rp = os.path.join(od, "confirm_%d.ops" % k)
+            open(rp, "w").write(mark + "\n")
+            rc, out, dt = run_harness(binp, rd, 1, tier, replay=rp, timeout=600, extra=cfg.get("harness_args"))
+            if rc != 0:
+                confirmed = True
+                break
+            if read_io(rd):
+                confirmed = True
+                break
+            mrc, merr = run_model(cfg["model"], rd, log)
+            if mrc != 0 or diff_outputs(rd)[1]:
+                confirmed = True
+                break
+        log("confirm %s: %s" % (mark, "reproduced" if confirmed else "NOT reproduced in 2 replays - dropped (%d differences)" % len(ds)))
+        if confirmed:
+            kept += ds
+        else:
+            dropped += len(ds)
+    return kept, dropped
+
+
 def read_io(outdir):
     res = []
     p = os.path.join(outdir, "io.jsonl")
@@ -490,6 +539,7 @@ def main():
 
     # ---------------- 2/3. harness + model + diff
     stats_all = []
+    unconfirmed = 0
     total_lines = 0
     harness_out = ""
     # one scratch directory per run (property, tree, tier, pid): concurrent runs never share files; stale ones are removed
@@ -552,6 +602,9 @@ def main():
                 n, diffs = diff_outputs(od)
                 total_lines += n
                 log("diff %s: %d lines, %d differences" % (name, n, len(diffs)))
+                if diffs and name.startswith("gen:") and cfg.get("confirm_scenario_diffs"):
+                    diffs, dropped = confirm_scenario_diffs(prop, cfg, binp, od, diffs, tier, log)
+                    unconfirmed += dropped
                 for (ln, op, im, mo) in diffs:
                     corr_broken.append({"stream": name, "line": ln, "op": op, "impl": im, "model": mo})
             if hooks:
@@ -652,6 +705,7 @@ def main():
             "samples": samples[:12] or ["(no harness run)"],
             "correspondence_lines_compared": total_lines,
             "correspondence_differences": len(corr_broken),
+            "trace_differences_not_reproduced_on_replay": unconfirmed,
             "io_oracle_failures": len(io_fails),
             "traces_validated_against_impl": sum(int(s.get("traces_validated", 0)) for s in stats_all),
             "input_distribution": dist,
